@@ -234,6 +234,13 @@ def run_leg(exe, leg, seed, total, workdir, flavour, harness, extra_args=(), job
             local.cases_done += pr[1]
             if rc == 97 and "VH-WATCHDOG" in err:
                 timed_out = True
+            hang_flag = os.path.join(workdir, "HANG_CONFIRMED")
+            if timed_out and os.path.exists(hang_flag):
+                # another shard of this leg has already confirmed a hang (re-run alone, fresh process): do not pay
+                # for more confirmations, stop this shard
+                local.inconclusive.append("shard %s stopped at case %d: watchdog expired and a hang was already confirmed in another shard (%d cases unexplored)"
+                                          % (tag, case, end - case))
+                break
             if timed_out:
                 # confirm on the single case with a fresh process before calling it a hang
                 cmd1 = [exe, "--seed", str(seed), "--first", str(case), "--count", "1", "--mode", mode,
@@ -241,7 +248,11 @@ def run_leg(exe, leg, seed, total, workdir, flavour, harness, extra_args=(), job
                 rc1, out1, err1, to1 = _run_child(cmd1, env, case_timeout)
                 if to1:
                     local.hangs += 1
-                    crashes += 1
+                    crashes += max_crashes_per_shard      # one confirmed hang ends the shard
+                    try:
+                        open(hang_flag, "w").write(str(case))
+                    except OSError:
+                        pass
                     local.viols.append(dict(meta, t="viol", key="hang/%s" % (mode or "case"), case=case, seed=seed,
                                             detail="case did not finish within %ds (twice, second time alone in a fresh process)" % case_timeout,
                                             desc=(err1 or err)[-1500:]))
